@@ -2,8 +2,8 @@
 ASSUMPTIONS = [
     "std models (hand-written, not derived from std's source): Vec::{new,len,push,pop,clear,truncate,is_empty,drain(start..)}, "
     "Vec/slice indexing by usize and by RangeFrom (out of range = panic), slice::{iter,first,last,len}, "
-    "slice::Iter::{any,all,position,next} (short-circuit, closure bodies executed from their MIR), "
-    "Option::{unwrap,expect,map,unwrap_or,is_some,is_none}; panicking entry points end the path as a panic",
+    "slice::Iter::{any,all,position,rposition,next} (short-circuit, closure bodies executed from their MIR), "
+    "Option::{unwrap,expect,map,map_or,unwrap_or,is_some,is_none,is_some_and,is_none_or}; panicking entry points end the path as a panic",
     "Vec::drain(start..) removes the tail at the call (the Drain value is dropped without being iterated)",
     "shuttle-engine models: Task is represented by its id (Task::id returns it), TaskId is a usize with derived equality, "
     "Schedule::new(seed) is an empty schedule carrying the seed",
